@@ -125,20 +125,46 @@ def figure_lifecycle(ctx, rule='C20-R2'):
               instance='close_fig: plt.close(own figure)')
     # files: written only when a stem is given, once per requested format
     writers = []
-    for fq in fx.summ:
-        if not p.funcs[fq].module.name.startswith('ampycloud.plots'):
-            continue
-        for e in fx.own_events(fq):
+    from sa.anchors import is_helper
+    loop_tables = {}
+    seen_nodes = set()
+    for fq in sorted(fx.summ):
+        if not p.funcs[fq].module.name.startswith('ampycloud.plots') or is_helper(p, fq):
+            continue        # (a helper that wraps savefig is seen where it is used, with its parameters bound)
+        loop_tables[fq] = fx.deep_loops(fq)
+        for e in fx.deep_events(fq):
             if e.kind == 'call' and ((call_head(e) or '').endswith('savefig') or
                                      (call_head(e) or '') in ('?.savefig', 'matplotlib.pyplot.imsave')):
+                if (id(e.node), len(e.ctx)) in seen_nodes and e.ctx:
+                    continue
+                seen_nodes.add((id(e.node), len(e.ctx)))
                 writers.append((fq, e))
     ctx.floor(rule, 'savefig call sites', len(writers), 2)
+    # a private one-line wrapper of savefig (def _savefig_as(self, fn_out, fmt)) is judged at its call sites, with its
+    # parameters replaced by what is passed
+    cases = []
     for fq, e in writers:
         f = p.funcs[fq]
-        loops = [fx.ex.loops[l] for l in e.loops]
-        in_fmt_loop = any(T.contains(l.iter, lambda x: tag(x) == 'p' and 'fmt' in x[1]) for l in loops)
         name = e.call[2][0] if tag(e.call) == 'call' and e.call[2] else \
             (e.call[3][0] if tag(e.call) == 'mcall' and e.call[3] else None)
+        sites = [(cq, se) for cq, se in fx.sites.get(fq, []) if p.funcs[cq].module.name.startswith('ampycloud.plots')]
+        wrapper = f.name.startswith('_') and not f.name.startswith('__') and not e.loops and e.guard == T.TRUE and sites \
+            and name is not None
+        if not wrapper:
+            cases.append((fq, e, name, [loop_tables[fq][l] for l in e.loops if l in loop_tables[fq]], e.guard))
+            continue
+        for cq, se in sites:
+            c = se.call
+            args, kws = (c[2], c[3]) if tag(c) == 'call' else (c[3], c[4])
+            if tag(c) == 'call' and f.cls is not None and not f.is_static:
+                bound = fx._bind(f, args, kws)
+            else:
+                bound = fx._bind(f, ((('p', 'self'),) + tuple(args)) if f.cls is not None and not f.is_static else args, kws)
+            nm2 = T.subst(name, {('p', k): v for k, v in bound.items() if k != 'self'})
+            tbl = fx.ex.loops               # (call sites are own events of the caller: the executor's loop table)
+            cases.append((cq, se, nm2, [tbl[l] for l in se.loops if l in tbl], se.guard))
+    for fq, e, name, loops, guard in cases:
+        in_fmt_loop = any(T.contains(l.iter, lambda x: tag(x) == 'p' and 'fmt' in x[1]) for l in loops)
         per_fmt = name is not None and T.contains(name, lambda x: tag(x) == 'lv')
         lvs = [x for x in T.walk(name) if tag(x) == 'lv'] if name is not None else []
         stems = [x for x in T.walk(name) if tag(x) == 'p' and ('stem' in x[1] or x[1] in ('fn_out',))] \
@@ -151,17 +177,26 @@ def figure_lifecycle(ctx, rule='C20-R2'):
                              ('bin', '+', st_, ('bin', '+', C('.'), lv_)),
                              ('mcall', C('{}.{}'), 'format', (st_, lv_), ()),
                              ('bin', '%', C('%s.%s'), ('tuple', (st_, lv_))))
-        ctx.check(exact, rule, fq, e.node, e.loc(),
+        # the default format written on its own (`if fmts is None: savefig(f'{stem}.pdf')`): one file, <stem>.<default>
+        default_only = False
+        if stems and not lvs and not loops:
+            st_ = stems[0]
+            fixed = [x for x in (('fstr', (st_, C('.pdf'))), ('fstr', (st_, C('.'), C('pdf'))), ('bin', '+', st_, C('.pdf')))
+                     if x == name]
+            default_only = bool(fixed) and any(tag(l) == 'cmp' and l[1] == 'is' and T.NONE in (l[2], l[3]) and
+                                               T.contains(l, lambda x: tag(x) == 'p' and 'fmt' in x[1])
+                                               for l in guard_literals(guard))
+        ctx.check(exact or default_only, rule, fq, e.node, e.loc(),
                   f'the file written is {T.show(name, maxlen=120)}: not exactly "<stem>.<format>" (e.g. a pathlib '
                   'with_suffix() replaces the part of a dotted stem after its last dot, so another file than the '
                   'requested one is written)', instance=f'{fq}: file name is <stem>.<format>')
-        ctx.check(in_fmt_loop and per_fmt and len(loops) == 1, rule, fq, e.node, e.loc(),
+        ctx.check((in_fmt_loop and per_fmt and len(loops) == 1) or default_only, rule, fq, e.node, e.loc(),
                   'savefig is not executed exactly once per requested format with a per-format file name',
                   instance=f'{fq}: one file per format')
         stem_guard = lambda g: any(tag(l) == 'not' and tag(l[1]) == 'cmp' and l[1][1] == 'is'  # noqa: E731
                                    and l[1][2] == ('p', 'save_stem') and l[1][3] == T.NONE
                                    for l in guard_literals(g))
-        if stem_guard(e.guard):
+        if stem_guard(guard):
             ctx.ok(rule, f'{fq}: savefig guarded by save_stem is not None', e.loc())
         else:
             sites = fx.sites.get(fq, [])
